@@ -1,0 +1,104 @@
+//go:build verif
+
+package protocol
+
+import (
+	"sync/atomic"
+)
+
+// VerifEvent is emitted to the tracer installed with SetVerifTracer. It only
+// exists in builds with the "verif" tag and is used by external verification
+// harnesses to observe state transitions, handler invocations and the receive
+// byte accounting.
+type VerifEvent struct {
+	Kind       string // "transition", "handler", "recv_accounted", "recv_released"
+	P          *Protocol
+	Name       string
+	ProtocolId uint16
+	Role       ProtocolRole
+	From       State
+	To         State
+	MsgType    uint8
+	Err        error
+	Limit      int
+	Pending    int
+	MsgLen     int
+}
+
+var verifTracer atomic.Pointer[func(VerifEvent)]
+
+// SetVerifTracer installs (or, with nil, removes) the process-wide tracer.
+func SetVerifTracer(f func(VerifEvent)) {
+	if f == nil {
+		verifTracer.Store(nil)
+		return
+	}
+	verifTracer.Store(&f)
+}
+
+// VerifPendingRecvBytes returns the number of received-but-unprocessed bytes.
+func (p *Protocol) VerifPendingRecvBytes() int {
+	p.pendingBytesMu.Lock()
+	defer p.pendingBytesMu.Unlock()
+	return p.pendingRecvBytes
+}
+
+func (p *Protocol) verifEmit(e VerifEvent) {
+	f := verifTracer.Load()
+	if f == nil {
+		return
+	}
+	e.P = p
+	e.Name = p.config.Name
+	e.ProtocolId = p.config.ProtocolId
+	e.Role = p.config.Role
+	(*f)(e)
+}
+
+func (p *Protocol) verifTransition(msg Message, next State, err error) {
+	if verifTracer.Load() == nil {
+		return
+	}
+	p.verifEmit(VerifEvent{
+		Kind:    "transition",
+		From:    p.getCurrentState(),
+		To:      next,
+		MsgType: msg.Type(),
+		Err:     err,
+	})
+}
+
+func (p *Protocol) verifHandler(msg Message) {
+	if verifTracer.Load() == nil {
+		return
+	}
+	p.verifEmit(VerifEvent{
+		Kind:    "handler",
+		From:    p.getCurrentState(),
+		MsgType: msg.Type(),
+	})
+}
+
+func (p *Protocol) verifRecvAccounted(state State, limit int, msgLen int) {
+	if verifTracer.Load() == nil {
+		return
+	}
+	p.verifEmit(VerifEvent{
+		Kind:    "recv_accounted",
+		From:    state,
+		Limit:   limit,
+		MsgLen:  msgLen,
+		Pending: p.VerifPendingRecvBytes(),
+	})
+}
+
+func (p *Protocol) verifRecvReleased() {
+	if verifTracer.Load() == nil {
+		return
+	}
+	p.verifEmit(VerifEvent{
+		Kind:    "recv_released",
+		From:    p.getCurrentState(),
+		Pending: p.VerifPendingRecvBytes(),
+	})
+}
